@@ -33,7 +33,7 @@
    while a database is selected are constrained, through SessionStore.stmt_hyp on the selected cache):
      (i)   a FAILING statement fails before its first page change (Atomic.fails_early) - exactly the
            complement of the recorded findings F11a-c, as in C01full / C14 / C02's (H1);
-     (ii)  RefineMain.stmt_ok: CREATE TABLE column names pairwise distinct; literals are Go values;
+     (ii)  RefineMain.stmt_ok: literals are Go values (int64, strings < 4 GiB);
      (iii) the data file stays below 2^63 bytes (per statement);
      (iv)  stmt_moves_okb: C02's (H2) (when an INSERT moves its table's root, the catalog row found by
            name is the first one holding the old root), as a boolean.
